@@ -26,7 +26,13 @@ func (s *skipListIndex) put(key []byte, pos *datafile.DataPos) *datafile.DataPos
 	if oldItem != nil {
 		oldValue = oldItem.Value.(*datafile.DataPos)
 	}
-	s.list.Set(key, pos)
+	if oldItem != nil {
+		// key 已存在, 仅更新位置信息
+		oldItem.Value = pos
+		return oldValue
+	}
+	// 索引持有 key 的副本, 调用方可自由复用传入的切片
+	s.list.Set(append([]byte(nil), key...), pos)
 	return oldValue
 }
 
